@@ -118,14 +118,22 @@ def run_verus(gen, profile, logdir=None, extra=()):
     return {"cmd": " ".join(cmd), "rc": r.returncode, "diags": diags, "nonjson": nonjson, "out": out, "wall": wall}
 
 
-def air_counts(path):
-    """number of `(assert` per Function-Def in Verus' AIR log (= verification conditions generated)"""
-    counts, cur = {}, None
-    if not os.path.exists(path):
-        return counts
+def air_counts(logdir):
+    """number of `(assert` per Function-Def in Verus' AIR logs (= verification conditions generated); one log per module"""
+    import glob
+    counts = {}
+    for path in sorted(glob.glob(os.path.join(logdir, "*.air"))):
+        if path.endswith("-final.air"):
+            continue
+        _air_file(path, counts)
+    return counts
+
+
+def _air_file(path, counts):
+    cur = None
     for l in open(path):
         if l.startswith(";; Function-Def "):
-            cur = l.split()[2]
+            cur = re.sub(r"^griddle_verus::((raw|map|set)::)?", "griddle_verus::", l.split()[2])
             counts.setdefault(cur, 0)
         elif l.startswith(";; Function-") or l.startswith(";; Fuel") or l.startswith(";; Datatypes") or l.startswith(";; Traits"):
             cur = None if not l.startswith(";; Function-Def") else cur
@@ -426,10 +434,10 @@ def run_pipeline(repo="/repo", workdir=None, keep=False, seed=0, extra_verus=(),
             res["runs"][name] = {"cmd": run["cmd"], "wall": round(run["wall"], 2), "rc": run["rc"],
                                  "verified": vr.get("verified"), "errors": vr.get("errors"),
                                  "smt_ms": (out.get("times-ms", {}).get("smt", {}) or {}).get("total"),
-                                 "functions": {f["function"].replace("griddle_verus::", ""): {"ms": f["time"], "rlimit": f["rlimit"], "ok": f["success"]} for f in fb},
+                                 "functions": {re.sub(r"^griddle_verus::((raw|map|set)::)?", "", f["function"]): {"ms": f["time"], "rlimit": f["rlimit"], "ok": f["success"]} for f in fb},
                                  "nonjson": run["nonjson"][:5], "verus": out.get("verus", {})}
             if name == profiles[0]:
-                res["air"] = air_counts(os.path.join(workdir, "log-" + name, "root.air"))
+                res["air"] = air_counts(os.path.join(workdir, "log-" + name))
         if res["structural"]:
             pass
         res["wall"] = round(time.time() - t0, 2)
